@@ -26,12 +26,22 @@ def addZ : Poly → Poly → Poly
   | p, [] => p
   | a :: p, b :: q => (a + b) :: addZ p q
 
-/-- product modulo `x^N`, skipping zero coefficients of `p`; `[]` when a factor is zero -/
+/-- number of leading zero coefficients (the `x`-adic valuation, or the length for the zero polynomial) -/
+def lead (p : Poly) : Nat := (p.takeWhile (· == 0)).length
+
+def padTo (M : Nat) (p : Poly) : Poly := p ++ List.replicate (M - p.length) 0
+
+/-- product modulo `x^N`; the powers of `x` dividing the factors are split off first, so that only
+    coefficients that can be non-zero are computed; `[]` when the product vanishes modulo `x^N` -/
 def mulZ (N : Nat) (p q : Poly) : Poly :=
-  if isZero p || isZero q then [] else
-  norm ((List.range N).map fun k => ((List.range (k + 1)).map fun i =>
-    let a := p.coeff i
-    if a == 0 then 0 else a * q.coeff (k - i)).sum)
+  let vp := lead p
+  let vq := lead q
+  if vp ≥ p.length || vq ≥ q.length || vp + vq ≥ N then [] else
+  let M := min (N - (vp + vq)) ((p.length - vp) + (q.length - vq) - 1)
+  let p' := padTo M (p.drop vp)
+  let q' := padTo M (q.drop vq)
+  List.replicate (vp + vq) 0 ++
+    (List.range M).map fun k => (List.zipWith (· * ·) (p'.take (k + 1)) (q'.take (k + 1)).reverse).sum
 
 def smulZ (c : Rat) (p : Poly) : Poly := if c == 0 then [] else p.map (c * ·)
 
@@ -74,11 +84,24 @@ def addZ : Poly2 → Poly2 → Poly2
   | p, [] => p
   | a :: p, b :: q => Poly.addZ a b :: addZ p q
 
-/-- product modulo total degree `M` (monomials `n^i ε^j` with `i + j < M` are kept) -/
+/-- number of leading zero coefficients (the `ε`-adic valuation) -/
+def lead (p : Poly2) : Nat := (p.takeWhile Poly.isZero).length
+
+def padTo (L : Nat) (p : Poly2) : Poly2 := p ++ List.replicate (L - p.length) []
+
+/-- product modulo total degree `M` (monomials `n^i ε^j` with `i + j < M` are kept); the powers of `ε` dividing
+    the factors are split off first -/
 def mulZ (M : Nat) (p q : Poly2) : Poly2 :=
-  if isZero p || isZero q then [] else
-  norm ((List.range M).map fun k => ((List.range (k + 1)).map fun i =>
-    Poly.mulZ (M - k) (p.coeff i) (q.coeff (k - i))).foldl Poly.addZ [])
+  let vp := lead p
+  let vq := lead q
+  if vp ≥ p.length || vq ≥ q.length || vp + vq ≥ M then [] else
+  let v := vp + vq
+  let L := min (M - v) ((p.length - vp) + (q.length - vq) - 1)
+  let p' := padTo L (p.drop vp)
+  let q' := padTo L (q.drop vq)
+  norm (List.replicate v [] ++
+    (List.range L).map fun k =>
+      (List.zipWith (Poly.mulZ (M - v - k)) (p'.take (k + 1)) (q'.take (k + 1)).reverse).foldl Poly.addZ [])
 
 def smulZ (c : Rat) (p : Poly2) : Poly2 := if c == 0 then [] else p.map (Poly.smulZ c)
 
@@ -183,13 +206,19 @@ def isZero (p : Trig C) : Bool := p.c.all R.isZero && (p.s.drop 1).all R.isZero
 /-- equality of trigonometric polynomials (coefficientwise) -/
 def eq (p q : Trig C) : Bool := isZero R (sub R p q)
 
-/-- Taylor shift `f(φ + δ) = Σ_{k ≤ K} δ^k/k! · f^{(k)}(φ)` -/
-def shift (K : Nat) (f δ : Trig C) : Trig C :=
-  ((List.range (K + 1)).foldl (fun (acc : Trig C × Trig C × Trig C) (k : Nat) =>
-    -- acc = (partial sum, δ^k/k!, f^{(k)})
-    (add R acc.1 (mul R acc.2.1 acc.2.2),
-     smul R (1 / ((k : Rat) + 1)) (mul R acc.2.1 δ),
-     deriv R acc.2.2)) (⟨[], []⟩, const R.one, f)).1
+/-- `[f, f′, …, f^{(K)}]` -/
+def derivs (f : Trig C) : Nat → List (Trig C)
+  | 0 => [f]
+  | K + 1 => f :: derivs (deriv R f) K
+
+/-- Horner form of `Σ_k δ^k/k! · f_k` for `fs = [f_k, f_{k+1}, …]`:  `f_k + δ/(k+1) · (f_{k+1} + δ/(k+2) · (…))` -/
+def horner (δ : Trig C) : Nat → List (Trig C) → Trig C
+  | _, [] => ⟨[], []⟩
+  | _, [f] => f
+  | k, f :: fs => add R f (smul R (1 / ((k : Rat) + 1)) (mul R δ (horner δ (k + 1) fs)))
+
+/-- Taylor shift `f(φ + δ) = Σ_{k ≤ K} δ^k/k! · f^{(k)}(φ)`, evaluated in Horner form -/
+def shift (K : Nat) (f δ : Trig C) : Trig C := horner R δ 0 (derivs R f K)
 
 /-- the sine series `Σ_{l ≥ 1} a_l sin lφ` -/
 def sinSeries (a : List C) : Trig C := ⟨[], R.zero :: a⟩
